@@ -273,7 +273,7 @@ public:
     //////////////////////////////////////////////////////////////////////////////
 
     auto getAllParticlesData(){
-        std::unique_ptr<std::array<RealType, NbDataValuesPerParticle>[]> data(new std::array<RealType, NbDataValuesPerParticle>[nbParticles]());
+        std::unique_ptr<std::array<DataType, NbDataValuesPerParticle>[]> data(new std::array<DataType, NbDataValuesPerParticle>[nbParticles]());
 
         applyToAllLeaves([&data](auto&& leafHeader, const long int* particleIndexes,
                              const std::array<DataType*, NbDataValuesPerParticle> particleDataPtr,
@@ -305,7 +305,7 @@ public:
     }
 
     void rebuild(){
-        std::vector<std::array<RealType, NbDataValuesPerParticle>> data(nbParticles);
+        std::vector<std::array<DataType, NbDataValuesPerParticle>> data(nbParticles);
         std::vector<std::array<RhsType, NbRhsValuesPerParticle>> rhs(nbParticles);
 
         applyToAllLeaves([&data, &rhs](auto&& leafHeader, const long int* particleIndexes,
